@@ -271,7 +271,7 @@ impl<'a> Dfa<'a> {
         }
 
         for equivalence_class in p.iter() {
-            let old_source_state = *equivalence_class.iter().next().unwrap();
+            let old_source_state = *equivalence_class.iter().min().unwrap();
             #[cfg(grex_verif)]
             let old_source_state =
                 crate::verif::pick(equivalence_class.iter().copied(), old_source_state);
